@@ -6,7 +6,7 @@ from hypothesis import strategies as st
 
 from anytree import AnyNode, Node, SymlinkNode, SymlinkNodeMixin
 
-from .. import forest, mut, nodes, shapes, strategies, values
+from .. import forest, mut, nodes, refs, shapes, strategies, values
 from ..core import Violation
 
 PROP_ID = "C19"
@@ -149,6 +149,17 @@ def full_state(all_nodes):
 def check_case(case, acc):
     other = build_tree(case["other"], []) if case.get("other") else []
     tree = build_tree(case["tree"], other)
+    for op in case.get("premut", []):
+        # the tree has a past: nodes were moved around before it is copied (some inner nodes lost all their children again)
+        if op[0] == "move":
+            # only moves that are legal (a refusal would format its message with reprs that need a 'name' on every node)
+            cur = tree[op[2] % len(tree)]
+            while cur is not None and cur is not tree[op[1] % len(tree)]:
+                cur = cur.parent
+            if cur is not None:
+                continue
+        if op[0] in ("move", "reverse"):
+            refs.mutate_tree(tree, op)
     everything = tree + other
     entry = tree[case["entry"]]
     method = case["method"]
@@ -173,16 +184,18 @@ def check_case(case, acc):
     else:
         del first.children
     # a fresh node attached below one copied leaf shows up there and nowhere else
-    leaf = next((c for c in copies if not c.children and not isinstance(c, (nodes.SlotLM, nodes.DictLM))), None)
-    if leaf is not None and not isinstance(leaf, (nodes.SlotLM, nodes.DictLM)):
-        fresh = Node("fresh")
+    for leaf in [c for c in copies if not c.children]:
+        fresh = nodes.SlotLM("fresh") if isinstance(leaf, (nodes.SlotLM, nodes.DictLM)) else Node("fresh")
         fresh.parent = leaf
         problem = mut.consistency_problem(copies + [fresh], forest.Labels(copies + [fresh]))
         if problem:
             raise Violation("consistency", "%s: after attaching a new node below a copied leaf: %s" % (ctx, problem))
         holders = [c for c in copies if any(k is fresh for k in c.children)]
         if len(holders) != 1 or holders[0] is not leaf:
-            raise Violation("independence", "%s: a node attached below one copied leaf is listed by %d nodes of the copy" % (ctx, len(holders)))
+            raise Violation("independence", "%s: a node attached below one childless node of the copy is listed by %d nodes of the copy" % (ctx, len(holders)))
+        fresh.parent = None
+        if leaf.children:
+            raise Violation("consistency", "%s: a childless node of the copy keeps a child after it was detached again" % ctx)
     if full_state(everything) != before:
         raise Violation("independence", "%s: mutating the copy changed the original" % ctx)
     # and the other way round (compare the copy with its state after the first mutation)
@@ -200,6 +213,7 @@ def check_case(case, acc):
     acc.tag("with_symlink", has_link)
     acc.tag("cross_tree_target", has_link and bool(other) and any(t and t[0] == "other" for t in case["tree"].get("targets", [])))
     acc.tag("entry_not_root", case["entry"] != 0)
+    acc.tag("tree_rearranged_before_copying", bool(case.get("premut")))
 
 
 NM_METHODS = ["p0", "p1", "p2", "p3", "p4", "p5", "deepcopy"]
@@ -232,6 +246,9 @@ def _enum_cases(max_nodes, index, count):
             for entry in range(size):
                 for method in methods:
                     case = {"tree": spec, "entry": entry, "method": method}
+                    if (k + entry) % 3 == 0 and size >= 3:
+                        # two moves that leave two inner nodes without children before the tree is copied
+                        case["premut"] = [["move", size - 1, size - 2], ["move", size - 1, 0], ["move", size - 2, size - 1]]
                     if other:
                         case["other"] = other
                     yield case
@@ -267,6 +284,7 @@ def random_cases(draw):
     case["entry"] = draw(st.one_of(st.just(0), st.integers(0, size - 1)))
     slotted = lm or any(c in ("SlotDictNM", "SlotLink") for spec in (case["tree"], case.get("other") or {"classes": []}) for c in spec["classes"])
     case["method"] = draw(st.sampled_from(LM_METHODS if slotted else NM_METHODS))
+    case["premut"] = draw(st.lists(strategies.tree_mutation_op(), max_size=4))
     return case
 
 
